@@ -322,6 +322,10 @@ pub fn base_model(variant: usize) -> Model {
     }
     _ = m.db.route_sets.insert("RS-X".into(), v(&["198.51.100.0/25", "RS-Y", "2001:db8:f00::/49"]));
     _ = m.db.route_sets.insert("RS-Y".into(), v(&["192.0.2.64/26", "RS-X"]));
+    // answers that hand a member back as a name
+    _ = m.db.route_sets.insert("RS-N1".into(), v(&["192.0.2.0/24", "=AS-GONE"]));
+    _ = m.db.route_sets.insert("RS-N2".into(), v(&["192.0.2.0/24", "=RS-GONE"]));
+    _ = m.db.route_sets.insert("RS-N3".into(), v(&["192.0.2.0/24", "=AS-B"]));
     // members with range operators, as real route-sets have them
     _ = m.db.route_sets.insert("RS-R".into(), v(&["192.0.2.0/24^25-26", "198.51.100.0/24^+", "2001:db8::/32^-", "2001:db8:f00::/48^50", "198.51.100.0/25"]));
     let f = Ex::And(Box::new(Ex::AsSet("AS-A".into())), Box::new(Ex::Ranged(Box::new(Ex::Lit(vec![("192.0.2.0/24".into(), Op::None)])), Op::Plus)));
@@ -1082,6 +1086,12 @@ pub fn unobtainable_cases(report: &mut Report, id: &str) -> u64 {
         ("filter-set object without a filter attribute", "FLTR-NOFILTER", Plan::default()),
         ("filter-set object without a filter attribute in a union", "(FLTR-NOFILTER OR AS65002)", Plan::default()),
         ("filter-set whose filter does not parse", "FLTR-BADFILTER", Plan::default()),
+        // the answer to the route-set query hands a member back as a name (RFC 2622 section 5.2 allows as-sets, AS
+        // numbers and route-sets as members) and that name cannot be resolved
+        ("route-set answer naming an unknown as-set", "RS-N1", Plan::default()),
+        ("route-set answer naming an unknown as-set in a union", "(RS-N1 OR AS65002)", Plan::default()),
+        ("route-set answer naming an unknown route-set", "RS-N2", Plan::default()),
+        ("route-set answer naming an as-set whose query is answered F", "RS-N3", Plan { faults: vec![], fault_on_query: vec![("!iAS-B".into(), Fault::Other)] }),
     ];
     for (what, expr, plan) in more {
         n += 1;
